@@ -54,7 +54,7 @@ Fixpoint closure (fuel : nat) (nx : st -> list st) (todo seen : list st) : optio
   end.
 
 Definition reach_of (pg : progs) (sorted : bool) : list st :=
-  match closure 200000 (next pg sorted) [init_st] [] with Some l => l | None => [] end.
+  match closure 5000 (next pg sorted) [init_st] [] with Some l => l | None => [] end.
 
 Definition reach_sorted : list st := Eval vm_compute in reach_of cur_progs true.
 Definition reach_unsorted : list st := Eval vm_compute in reach_of cur_progs false.
@@ -70,3 +70,25 @@ Definition reachable_files (sorted hasdata : bool) (s : fs) : bool :=
 
 Definition st_safe (strict sorted : bool) (s : st) : bool :=
   match pr s with PFatal => false | _ => safe strict sorted (hasdata s) (doomed s) (files s) end.
+
+(* safe as a crash state, and consistent with what the process believes: a fraction the process
+   serves has the files it is served from; one it dropped is not served by a later start and has
+   left no document-bearing file *)
+Definition st_good (strict sorted : bool) (s : st) : bool :=
+  st_safe strict sorted s &&
+  match pr s with
+  | PIdle MGone => negb (served_class (files s) (hasdata s)) && residue_ok strict (files s)
+  | PIdle MSealed =>
+      match classify (files s) with CSealedSD | CSealedD => served_ok sorted (files s) | _ => false end
+  | PIdle MActive => match classify (files s) with CActive => f_docs (files s) | _ => false end
+  | _ => true
+  end.
+
+(* every state the life cycle of one fraction can be in, for any history and any crash points *)
+Inductive reachable (pg : progs) (sorted : bool) : st -> Prop :=
+| r_init : reachable pg sorted init_st
+| r_step : forall s t, reachable pg sorted s -> In t (next pg sorted s) -> reachable pg sorted t.
+
+(* a fraction of a directory left by a crash *)
+Definition crash_state (pg : progs) (sorted : bool) (f : fracst) : Prop :=
+  exists s, reachable pg sorted s /\ files s = fs_of (st_files f) /\ hasdata s = st_hasdata f.
